@@ -573,119 +573,33 @@ Proof.
   apply andb_true_iff in H2. destruct H2 as [H2 _]. rewrite H2. reflexivity.
 Qed.
 
-Lemma ser_chain_single exts : (length exts <= 1)%nat -> ser_chain_bytes exts = chain_bytes exts.
-Proof.
-  destruct exts as [|[id p] [|e exts]]; cbn [length]; intro H; try lia; reflexivity.
-Qed.
-
-Lemma single_ext_full_exts h : single_extb h = true -> (length (full_exts h) <= 1)%nat.
-Proof.
-  unfold single_extb, full_exts.
-  destruct (e_sack (h_ext h)), (e_close (h_ext h)); cbn [app length]; intro H; try lia; discriminate.
-Qed.
-
-(* with at most one extension the output is the BEP-29 encoding of the header *)
-Lemma serialize_full_single h buflen : single_extb h = true -> ser_len h <= buflen -> 20 <= buflen ->
-  serialize h buflen = Some (encode_packet h (full_exts h)).
-Proof.
-  intros Hs Hl H20. unfold serialize, UTP_HEADER. destruct (Z.ltb_spec buflen 20); [lia|].
-  rewrite ser_exts_full by assumption. cbn zeta.
-  rewrite ser_chain_single by (apply single_ext_full_exts; assumption). reflexivity.
-Qed.
-
 (* general form: any representable header comes back normalised *)
 Lemma roundtrip_normalises h buflen payload :
-  hdr_wfb h = true -> single_extb h = true -> ser_len h <= buflen -> bytes_okb payload = true ->
+  hdr_wfb h = true -> ser_len h <= buflen -> bytes_okb payload = true ->
   exists bs, serialize h buflen = Some bs /\ Zlength bs = ser_len h /\
              deserialize (bs ++ payload) = Some (normalise h, ser_len h).
 Proof.
-  intros Hw Hs Hl Hp. unfold hdr_wfb in Hw. apply andb_true_iff in Hw. destruct Hw as [Hf He].
+  intros Hw Hl Hp. unfold hdr_wfb in Hw. apply andb_true_iff in Hw. destruct Hw as [Hf He].
   destruct (full_exts_ok h He) as (Hok & Happ & Hsz).
   exists (encode_packet h (full_exts h)). split; [|split].
-  - assert (20 <= ser_len h).
+  - unfold serialize.
+    assert (20 <= ser_len h).
     { unfold ser_len, UTP_HEADER. destruct (e_sack (h_ext h)) as [s|]; destruct (e_close (h_ext h));
         try pose proof (Zlength_nonneg (sack_bytes s)); lia. }
-    apply serialize_full_single; [assumption|assumption|lia].
+    unfold UTP_HEADER. destruct (Z.ltb_spec buflen 20); [lia|].
+    rewrite ser_exts_full by assumption. reflexivity.
   - rewrite encode_packet_length. exact Hsz.
   - rewrite deserialize_encode by assumption. rewrite Happ, Hsz. reflexivity.
 Qed.
 
 Lemma roundtrip h buflen payload :
-  hdr_okb h = true -> single_extb h = true -> ser_len h <= buflen -> bytes_okb payload = true ->
+  hdr_okb h = true -> ser_len h <= buflen -> bytes_okb payload = true ->
   exists bs, serialize h buflen = Some bs /\ Zlength bs = ser_len h /\
              deserialize (bs ++ payload) = Some (h, ser_len h).
 Proof.
-  intros Hok Hs Hl Hp.
-  destruct (roundtrip_normalises h buflen payload (hdr_ok_wf h Hok) Hs Hl Hp) as (bs & H1 & H2 & H3).
+  intros Hok Hl Hp.
+  destruct (roundtrip_normalises h buflen payload (hdr_ok_wf h Hok) Hl Hp) as (bs & H1 & H2 & H3).
   rewrite normalise_ok in H3 by assumption. exists bs; auto.
-Qed.
-
-(* ------------------------------------------------------------------ both extensions: malformed output *)
-(* With SACK and close reason both present (and a buffer that holds both) the id 3 lands on the
-   SACK's length byte: the output is the encoding of a packet whose only extension is a SACK of
-   3 bytes, followed by 11 stray bytes (5 SACK bytes, then the close-reason block). *)
-Lemma serialize_both_ext h buflen s c :
-  e_sack (h_ext h) = Some s -> e_close (h_ext h) = Some c -> length (sack_bytes s) = 8%nat ->
-  36 <= buflen ->
-  serialize h buflen =
-  Some (encode_packet h [(EXT_SELECTIVE_ACK, firstn 3 (sack_bytes s))] ++
-        (skipn 3 (sack_bytes s) ++ [0; 4] ++ close_as_bytes c)).
-Proof.
-  intros Es Ec Hl Hb. unfold serialize, UTP_HEADER. destruct (Z.ltb_spec buflen 20); [lia|].
-  unfold ser_exts, add_ext, UTP_HEADER. rewrite Es, Ec.
-  assert (Hz : Zlength (sack_bytes s) = 8) by (rewrite Zlength_correct, Hl; reflexivity).
-  assert (Hc : Zlength (close_as_bytes c) = 4) by reflexivity. rewrite Hz, Hc.
-  destruct (Z.leb_spec (20 + 2 + 8) buflen); [|lia].
-  destruct (Z.leb_spec (20 + 2 + 8 + 2 + 4) buflen); [|lia].
-  cbn [fst app first_id ser_chain_bytes]. unfold encode_packet. cbn [first_id chain_bytes].
-  rewrite <- app_assoc. f_equal.
-  destruct (sack_bytes s) as [|b0 [|b1 [|b2 [|b3 [|b4 [|b5 [|b6 [|b7 [|]]]]]]]]]; try discriminate.
-  cbn [firstn skipn app]. rewrite Hc. reflexivity.
-Qed.
-
-Lemma both_ext_malformed h buflen :
-  hdr_wfb h = true -> single_extb h = false -> ser_len h <= buflen ->
-  exists bs h', serialize h buflen = Some bs /\ Zlength bs = 36 /\
-                deserialize bs = Some (h', 25) /\ e_close (h_ext h') = None /\ h' <> h /\
-                (h_type h <> ST_DATA -> msg_deserialize bs = MsgNone).
-Proof.
-  intros Hw Hs Hl. unfold single_extb in Hs.
-  destruct (e_sack (h_ext h)) as [s|] eqn:Es; [|discriminate].
-  destruct (e_close (h_ext h)) as [c|] eqn:Ec; [|discriminate]. clear Hs.
-  pose proof Hw as Hw'. unfold hdr_wfb in Hw'. apply andb_true_iff in Hw'. destruct Hw' as [Hf He].
-  apply ext_wfb_iff in He. rewrite Es, Ec in He. destruct He as [Hsw Hcr].
-  apply sack_wfb_iff in Hsw. destruct Hsw as [Hlen Hbytes].
-  assert (Hz : Zlength (sack_bytes s) = 8) by (rewrite Zlength_correct, Hlen; reflexivity).
-  assert (H36 : 36 <= buflen).
-  { unfold ser_len, UTP_HEADER in Hl. rewrite Es, Ec, Hz in Hl. lia. }
-  set (d3 := firstn 3 (sack_bytes s)).
-  set (tail := skipn 3 (sack_bytes s) ++ [0; 4] ++ close_as_bytes c).
-  assert (Hd3 : Zlength d3 = 3).
-  { subst d3. rewrite Zlength_correct, firstn_length, Hlen. reflexivity. }
-  assert (Hok : exts_wire_okb [(EXT_SELECTIVE_ACK, d3)] = true).
-  { unfold exts_wire_okb; cbn [forallb]. rewrite andb_true_r. apply ext_wire_okb_iff.
-    unfold EXT_SELECTIVE_ACK. split; [lia|]. split; [lia|]. subst d3. apply bytes_okb_firstn; assumption. }
-  assert (Htail : bytes_okb tail = true /\ Zlength tail = 11).
-  { subst tail. rewrite !bytes_okb_app, bytes_okb_skipn by assumption. rewrite !Zlength_app.
-    replace (Zlength (skipn 3 (sack_bytes s))) with 5
-      by (rewrite Zlength_correct, skipn_length, Hlen; reflexivity).
-    split; [|reflexivity]. unfold close_as_bytes, be32, bytes_okb; cbn [forallb andb]. unfold byte_okb. lia. }
-  destruct Htail as [Htb Htl].
-  set (h' := with_ext h (apply_exts [(EXT_SELECTIVE_ACK, d3)] no_ext)).
-  assert (Hde : deserialize (encode_packet h [(EXT_SELECTIVE_ACK, d3)] ++ tail) = Some (h', 25)).
-  { rewrite deserialize_encode by assumption. subst h'. f_equal. f_equal.
-    unfold ext_size; cbn [map sumZ snd]. lia. }
-  exists (encode_packet h [(EXT_SELECTIVE_ACK, d3)] ++ tail), h'.
-  split; [apply (serialize_both_ext h buflen s c); assumption|].
-  split; [rewrite Zlength_app, encode_packet_length, Htl; unfold ext_size; cbn [map sumZ snd]; lia|].
-  split; [exact Hde|].
-  assert (Hcl : e_close (h_ext h') = None) by reflexivity.
-  split; [exact Hcl|]. split.
-  - intro Heq. rewrite Heq, Ec in Hcl. discriminate.
-  - intro Ht. unfold msg_deserialize. rewrite Hde.
-    rewrite Zlength_app, encode_packet_length, Htl. unfold ext_size; cbn [map sumZ snd]. rewrite Hd3.
-    cbn [Z.add Z.ltb Z.compare Pos.add Pos.succ Pos.compare Pos.compare_cont Z.sub Z.opp Z.pos_sub Z.gtb Pos.pred_double Z.succ_double Z.pred_double Z.double].
-    change (h_type h') with (h_type h). destruct (h_type h); [congruence|reflexivity..].
 Qed.
 
 Lemma serialize_err h buflen : serialize h buflen = None <-> buflen < 20.
@@ -710,31 +624,23 @@ Proof.
   rewrite Z.eqb_refl, andb_true_r. exact H.
 Qed.
 
-Lemma normalise_single h : single_extb (normalise h) = single_extb h.
-Proof.
-  unfold single_extb, normalise, normalise_ext, with_ext; cbn [h_ext e_sack e_close].
-  destruct (e_sack (h_ext h)); reflexivity.
-Qed.
-
 Lemma reserialize_normalises bs h n buflen :
-  bytes_okb bs = true -> deserialize bs = Some (h, n) -> single_extb h = true ->
-  ser_len h <= buflen ->
+  bytes_okb bs = true -> deserialize bs = Some (h, n) -> ser_len h <= buflen ->
   exists bs', serialize h buflen = Some bs' /\
               deserialize bs' = Some (normalise h, ser_len h) /\
               hdr_okb (normalise h) = true /\
               (exists bs'', serialize (normalise h) buflen = Some bs'' /\
                             deserialize bs'' = Some (normalise h, ser_len h)).
 Proof.
-  intros Hb Hd Hs Hl. destruct (parsed_wf bs h n Hb Hd) as [_ Hw].
-  destruct (roundtrip_normalises h buflen [] Hw Hs Hl eq_refl) as (bs' & H1 & H2 & H3).
+  intros Hb Hd Hl. destruct (parsed_wf bs h n Hb Hd) as [_ Hw].
+  destruct (roundtrip_normalises h buflen [] Hw Hl eq_refl) as (bs' & H1 & H2 & H3).
   rewrite app_nil_r in H3. exists bs'. repeat split; try assumption.
   - apply normalise_hdr_ok; assumption.
   - pose proof (normalise_hdr_ok h Hw) as Hok.
     assert (Hsl : ser_len (normalise h) = ser_len h).
     { unfold ser_len, normalise, normalise_ext, with_ext; cbn [h_ext e_sack e_close].
       destruct (e_sack (h_ext h)); reflexivity. }
-    destruct (roundtrip (normalise h) buflen [] Hok) as (bs'' & G1 & G2 & G3);
-      [rewrite normalise_single; assumption|lia|reflexivity|].
+    destruct (roundtrip (normalise h) buflen [] Hok) as (bs'' & G1 & G2 & G3); [lia|reflexivity|].
     rewrite app_nil_r, Hsl in G3. exists bs''. split; assumption.
 Qed.
 
@@ -934,22 +840,15 @@ Proof.
   apply fields_eqb_iff. destruct h; reflexivity.
 Qed.
 
-Lemma ser_model_ok h buflen : hdr_wfb h = true -> single_extb h = true ->
-  c11_ser_ok h buflen (serialize h buflen) = true.
+Lemma ser_model_ok h buflen : hdr_wfb h = true -> c11_ser_ok h buflen (serialize h buflen) = true.
 Proof.
-  intros Hw Hsingle. unfold c11_ser_ok, serialize, UTP_HEADER.
+  intro Hw. unfold c11_ser_ok, serialize, UTP_HEADER.
   destruct (Z.ltb_spec buflen 20) as [Hlt|Hge]; [destruct (Z.ltb_spec buflen 20); [reflexivity|lia]|].
   destruct (Z.leb_spec 20 buflen); [|lia]. cbn [andb].
   pose proof Hw as Hw'. unfold hdr_wfb in Hw'. apply andb_true_iff in Hw'. destruct Hw' as [Hf He].
   destruct (full_exts_ok h He) as (Hfok & Hfapp & Hfsz).
   destruct (ser_exts_cases h buflen) as (ks & kc & Hex & Hsz). cbn zeta in Hex, Hsz.
   set (exts := fst (ser_exts h buflen)) in *.
-  assert (Hone : (length exts <= 1)%nat).
-  { rewrite Hex. unfold single_extb in Hsingle.
-    destruct (e_sack (h_ext h)), (e_close (h_ext h)), ks, kc; cbn [app length]; try lia; discriminate. }
-  rewrite ser_chain_single by exact Hone.
-  change (fixed_bytes (h_type h) (first_id exts) (h_conn h) (h_ts h) (h_tsdiff h) (h_wnd h)
-            (h_seq h) (h_ack h) ++ chain_bytes exts) with (encode_packet h exts).
   assert (Hok : exts_wire_okb exts = true).
   { rewrite Hex. revert Hfok. unfold full_exts, exts_wire_okb. rewrite !forallb_app.
     intro H0. apply andb_true_iff in H0. destruct H0 as [H1 H2].
@@ -1040,35 +939,15 @@ Definition both_header : header :=
      h_ext := {| e_sack := Some (sack_new [0; 1; 7; 63]); e_close := Some 288 |} |}.
 Example both_header_ok : hdr_okb both_header = true /\ ser_len both_header = 36.
 Proof. split; vm_compute; reflexivity. Qed.
-(* the literal round trip is FALSE for this header (both extensions present): the bytes written
-   parse back to a 3-byte SACK, no close reason, boundary 25; and as a message (ST_STATE with 11
-   stray bytes) they are rejected *)
 Example both_header_written :
   serialize both_header 36 =
   Some [33; 1; 255; 255; 255; 255; 255; 255; 0; 0; 0; 1; 0; 0; 1; 0; 0; 0; 255; 255;
-        0; 3; 131; 0; 0; 0; 0; 0; 0; 128;   0; 4; 0; 0; 1; 32].
+        3; 8; 131; 0; 0; 0; 0; 0; 0; 128;   0; 4; 0; 0; 1; 32].
 Proof. vm_compute. reflexivity. Qed.
-Example both_header_parses_back_wrong :
-  option_map deserialize (serialize both_header 36) =
-  Some (Some (with_ext both_header
-                {| e_sack := Some {| sack_bytes := [131; 0; 0; 0; 0; 0; 0; 0]; sack_len := 24 |};
-                   e_close := None |}, 25)).
+Example both_header_roundtrip :
+  option_map (fun bs => deserialize (bs ++ [9; 9])) (serialize both_header 36) =
+  Some (Some (both_header, 36)).
 Proof. vm_compute. reflexivity. Qed.
-Lemma roundtrip_refuted_both_ext :
-  exists h, hdr_okb h = true /\
-            option_map deserialize (serialize h 1024) <> Some (Some (h, ser_len h)) /\
-            option_map msg_deserialize (serialize h 1024) = Some MsgNone.
-Proof.
-  exists both_header. split; [vm_compute; reflexivity|]. split; [|vm_compute; reflexivity].
-  vm_compute. intro H. discriminate H.
-Qed.
-(* a single-extension header with a SACK from SelectiveAck::new does round-trip *)
-Definition sack_header : header := with_ext both_header {| e_sack := Some (sack_new [0; 1; 7; 63]); e_close := None |}.
-Example sack_header_roundtrip :
-  hdr_okb sack_header = true /\ single_extb sack_header = true /\
-  option_map (fun bs => deserialize (bs ++ [9; 9])) (serialize sack_header 30) =
-  Some (Some (sack_header, 30)).
-Proof. repeat split; vm_compute; reflexivity. Qed.
 (* buffer of 29 bytes: the SACK (needs 30) is silently skipped, the close reason (26) is written *)
 Example both_header_small_buffer :
   option_map deserialize (serialize both_header 29) =
